@@ -97,6 +97,16 @@ def check_core_family(prop, tier):
             extra_viol = extra_viol + r["violations"]
             extra_cov["parser_histories_executed"] = extra_cov.get("parser_histories_executed", 0) + r["n"]
             extra_cov["parser_parses"] = extra_cov.get("parser_parses", 0) + r["nparse"]
+    if prop == "C07":
+        # one parser object that has just accepted a token is shown the same token under the header of another
+        # protocol (re-parse histories c16r / c16pr; the table holds a relabelled copy of the authentic token)
+        for cn in ("c16r", "c16pr"):
+            r = parser_pipeline(prop + cn[3:], tier, "c16" if cn == "c16r" else "c16p", ("C07",), cfgname=cn)
+            for v in r["violations"]:
+                v["props"] = [prop]
+            extra_viol = extra_viol + r["violations"]
+            extra_cov["parser_histories_executed"] = extra_cov.get("parser_histories_executed", 0) + r["n"]
+            extra_cov["parser_parses"] = extra_cov.get("parser_parses", 0) + r["nparse"]
     if prop == "C04":
         # one parser object, the same token presented again under another key (call histories)
         r = parser_pipeline(prop, tier, "c15", ("C04",), cfgname="c04")
